@@ -1,11 +1,16 @@
 //! lv — verification harness for lopdf (see /verif/DESIGN.md).
 
+mod alloc;
 mod canon;
 mod engine;
 mod gen;
 mod model;
 mod props;
 mod refimpl;
+mod worker;
+
+#[global_allocator]
+static GLOBAL: alloc::Counting = alloc::Counting;
 
 use engine::{Run, Tier};
 
@@ -54,6 +59,9 @@ fn main() {
                 }
             }
             std::process::exit(run.finish());
+        }
+        "worker" => {
+            worker::worker_main(props::entries::dispatch);
         }
         "digest-server" => {
             engine::quiet_panics();
